@@ -72,10 +72,14 @@ multilot_with_aliquot_regex = re.compile(
     (
         # leading aliquot division (optional)
         (?P<aliquot>(([NESW]½)|((NE|NW|SE|SW)¼))+)
-        
-        \s*
-        (of)?                           # "of" (optional)
-        \s*
+
+        # "of" (optional) -- but if it is left out, the aliquot and the
+        # lot(s) must be on the same line.
+        (
+            \s*of\s*
+            |
+            [^\S\r\n]*
+        )
     )?
     
     # The usual multi-lot pattern with the same named groups.
